@@ -144,7 +144,7 @@ static void do_ren(char *hex, int order, int td, int lim)
 	if (total <= 80) {
 		plo[0] = -2; phi[0] = total + 2; plo[1] = 0; phi[1] = -1;
 	} else {
-		plo[0] = -2; phi[0] = 12; plo[1] = total - 12; phi[1] = total + 2;
+		plo[0] = -2; phi[0] = 6; plo[1] = total - 6; phi[1] = total + 2;
 	}
 	printf(" cols=");
 	for (i = 0; i < 2; i++)
